@@ -67,13 +67,13 @@ Oversize(d) ==
 
 \* STARTUP: a [string map] whose entry order is not determined: parse and compare as a set of pairs
 RECURSIVE ParseMap(_, _, _)
-ParseMap(b, pos, n) ==   \* returns set of <<key bytes, value bytes>> or "bad"
-  IF n = 0 THEN (IF pos = Len(b) + 1 THEN {} ELSE {"bad"})
-  ELSE IF pos + 1 > Len(b) THEN {"bad"}
+ParseMap(b, pos, n) ==   \* returns set of <<key bytes, value bytes>>; the empty tuple in it = the bytes are not such a map
+  IF n = 0 THEN (IF pos = Len(b) + 1 THEN {} ELSE {<< >>})
+  ELSE IF pos + 1 > Len(b) THEN {<< >>}
   ELSE LET kl == b[pos] * 256 + b[pos + 1] IN
-       IF pos + 2 + kl + 1 > Len(b) THEN {"bad"}
+       IF pos + 2 + kl + 1 > Len(b) THEN {<< >>}
        ELSE LET vl == b[pos + 2 + kl] * 256 + b[pos + 3 + kl] IN
-            IF pos + 4 + kl + vl - 1 > Len(b) THEN {"bad"}
+            IF pos + 4 + kl + vl - 1 > Len(b) THEN {<< >>}
             ELSE {<<SubSeq(b, pos + 2, pos + 1 + kl), SubSeq(b, pos + 4 + kl, pos + 3 + kl + vl)>>} \cup ParseMap(b, pos + 4 + kl + vl, n - 1)
 StartupBodyOK(d, body) ==
   /\ Len(body) >= 2
@@ -85,6 +85,7 @@ FrameOK(r) ==
   IF Oversize(r.d) THEN r.ok = 0
   ELSE /\ r.ok = 1
        /\ Len(r.frame) >= 9
+       /\ r.undec = 0                                  \* a body sent as compressed is a valid LZ4 / Snappy stream (the harness decompressed it)
        /\ SubSeq(r.frame, 1, 9) = Header(r.d, r.comp # "none", Len(r.frame) - 9)      \* version, flags, stream 0, opcode, length = body size
        /\ IF r.d.op = "startup" THEN StartupBodyOK(r.d, r.body)
           ELSE r.body = ReqBody(r.d)
